@@ -56,37 +56,41 @@ theorem tie_none_policy_sweeps : C12.nonePolicySweeps = [(true, false), (false, 
     timestamp / ResourceCache.SetDefault statements, so a directory that could not be read or written is never
     recorded in the cache (`stepE` in Model/C12Env.lean: identity on a missing directory); in the first sweep the
     error test also precedes the `mergedUpdater == nil` (skipMerge) test. -/
+/- (local variable names are erased by the extractor: `_` = a local, `$k` = the k-th parameter) -/
 theorem tie_pass_skeleton :
     C12.passSkeleton =
-      ["if:!needUpdate(updater):continue ; call:MergeUpdate() ; if:err!=nil&&isUpdateErrIgnored(err):continue ; if:err!=nil:continue ; if:mergedUpdater==nil ; do:UpdateLastUpdateTimestamp ; cache ; if:err!=nil",
-       "if:!needUpdate(updater):continue ; if:skipMerge[Key()]:continue ; call:update() ; if:err!=nil&&isUpdateErrIgnored(err):continue ; if:err!=nil:continue ; do:UpdateLastUpdateTimestamp ; cache ; if:err!=nil"] := by
+      [["if:!needUpdate(_):continue", "call:MergeUpdate()", "if:_!=nil&&isUpdateErrIgnored(_):continue",
+        "if:_!=nil:continue", "if:_==nil", "do:UpdateLastUpdateTimestamp", "cache", "if:_!=nil"],
+       ["if:!needUpdate(_):continue", "if:_[Key()]:continue", "call:update()",
+        "if:_!=nil&&isUpdateErrIgnored(_):continue", "if:_!=nil:continue", "do:UpdateLastUpdateTimestamp",
+        "cache", "if:_!=nil"]] := by
   decide
 
 /-- the errors the executor ignores: nil, resource unsupported, cgroup dir/file does not exist. -/
 theorem tie_ignored_errs :
-    C12.ignoredErrConds = ["err==nil", "IsResourceUnsupportedErr(err)", "IsCgroupDirErr(err)"] := by decide
+    C12.ignoredErrConds = ["$1==nil", "IsResourceUnsupportedErr($1)", "IsCgroupDirErr($1)"] := by decide
 
 /-- applyBESuppressCPUSet dispatches as `applyBESuppress` in the model: two returning guards (NodeTopo nil, policy
     annotation unparsable) before the branch, the static arm taken iff Policy == "static", the none-policy
     function in the other arm. -/
 theorem tie_suppress_dispatch :
-    C12.suppressGuards = ["nodeTopo==nil", "err!=nil"] ∧
+    C12.suppressGuards = ["_==nil", "_!=nil"] ∧
     C12.suppressCond = "Policy==KubeletCPUManagerPolicyStatic" ∧
-    C12.suppressElseCalls = ["applyCPUSetWithNonePolicy(beCPUSet,oldCPUSet)"] := by decide
+    C12.suppressElseCalls = ["applyCPUSetWithNonePolicy($1,$2)"] := by decide
 
 /-- the ORDER of the two calls of the static arm: recover besteffort + pod dirs FIRST, containers afterwards
     (`staticPolicy` in the model; the swapped order is refuted by static_policy_swapped_order_counterexample). -/
 theorem tie_static_policy_order :
     C12.suppressStaticCalls =
-      ["recoverCPUSetIfNeed(PodCgroupPathRelativeDepth)", "applyCPUSetWithStaticPolicy(beCPUSet)"] := by decide
+      ["recoverCPUSetIfNeed(PodCgroupPathRelativeDepth)", "applyCPUSetWithStaticPolicy($1)"] := by decide
 
 /-- each of the two steps is one unconditional forward sweep: recover over the dirs of depth ≤ maxDepth with the
     calcBECPUSet string, static over the dirs of depth == container depth with the new set, skipped when empty. -/
 theorem tie_static_policy_sweeps :
-    C12.recoverSweeps = ["GetBECPUSetPathsByMaxDepth(maxDepth)|String()|false"] ∧
+    C12.recoverSweeps = ["GetBECPUSetPathsByMaxDepth($1)|String()|false"] ∧
     C12.staticSweeps =
-      ["GetBECPUSetPathsByTargetDepth(ContainerCgroupPathRelativeDepth)|GenerateCPUSetStr(cpus)|false"] ∧
-    C12.staticFirstGuard = "len(cpus)<=0" ∧
+      ["GetBECPUSetPathsByTargetDepth(ContainerCgroupPathRelativeDepth)|GenerateCPUSetStr($1)|false"] ∧
+    C12.staticFirstGuard = "len($1)<=0" ∧
     C12.maxDepthCmp = "<=" ∧ C12.targetDepthCmp = "==" := by decide
 
 theorem tie_depths : C12.podDepthConst = (podDepth : Int) ∧ C12.ctrDepthConst = (ctrDepth : Int) := by decide
